@@ -131,12 +131,15 @@ def _run(ev, work, thorough):
     os.makedirs(base)
     jobs = []
     for shape in ("flat", "hive", "drill", "hive2", "drill2"):
-        sub = cases if thorough else (cases[::3] if shape in ("flat", "hive", "drill") else cases[1::5])
+        if thorough:
+            sub = cases[::2] if shape in ("flat", "hive", "drill") else cases[1::3]
+        else:
+            sub = cases[::3] if shape in ("flat", "hive", "drill") else cases[1::5]
         for i in range(16):
             c = sub[i::16]
             if c:
                 jobs.append((len(jobs), c, shape, base))
-    results = pmap(job, jobs, job_timeout=180)
+    results = pmap(job, jobs, job_timeout=900 if thorough else 180)
     verd = Verdicts(PID, os.path.join(HOME, "replays"))
     for j, r in zip(jobs, results):
         if isinstance(r, Crashed):
